@@ -63,9 +63,17 @@ impl SubscriptionManager {
 
         #[cfg(deltio_verif)]
         crate::verif::point("submgr.between_insert_and_attach").await;
-        topic
-            .attach_subscription(subscription.clone())
+        // Attach in a task of its own: if the caller goes away while we wait (the request
+        // future is dropped), the subscription registered above must still get attached,
+        // otherwise it would exist without ever receiving messages.
+        let attach = tokio::spawn({
+            let topic = Arc::clone(&topic);
+            let subscription = Arc::clone(&subscription);
+            async move { topic.attach_subscription(subscription).await }
+        });
+        attach
             .await
+            .unwrap_or(Err(AttachSubscriptionError::Closed))
             .map_err(|e| match e {
                 AttachSubscriptionError::Closed => CreateSubscriptionError::Closed,
             })?;
